@@ -33,9 +33,6 @@ type pRec struct {
 	GLeak    int    `json:"gleak"`
 	SettleMs int    `json:"settle_ms"`
 	Alloc    uint64 `json:"alloc"`
-	// end record: goroutines at start / after every pair has been closed
-	G0   int `json:"g0,omitempty"`
-	GEnd int `json:"gend,omitempty"`
 }
 
 const settleDeadline = 2 * time.Second
@@ -82,7 +79,6 @@ func runP2P(outPath string, scale int, inPath string) {
 		}
 	}
 	rng := hx.NewRng(hx.SeedFromEnv())
-	gStart := runtime.NumGoroutine()
 	pair := newPair()
 	defer func() {
 		if pair != nil {
@@ -94,13 +90,20 @@ func runP2P(outPath string, scale int, inPath string) {
 	}
 	i := 0
 	dead := 0
+	charged := 0 // goroutines inside the stream handlers already attributed to a case
+	lastI, lastResp, lastD, lastGen := 0, false, "", ""
 	one := func(resp bool, d []byte, gen string) {
 		i++
 		rec := pRec{K: "p", I: i, Phase: "pending", Resp: resp, D: hex.EncodeToString(d), Gen: gen}
 		emit(rec)
-		// let the previous exchange (ping streams, identify) finish, then take the baseline
+		// a handler that got stuck after the previous case had been judged (it started late) is charged to that case
+		if sb := inHandlers(); sb > charged {
+			emit(pRec{K: "p", I: lastI, Phase: "late", Resp: lastResp, D: lastD, Gen: lastGen, GLeak: sb - charged, SettleMs: -1, Alive: true})
+			charged = sb
+		} else if sb < charged {
+			charged = sb // stuck handlers of a closed pair died with their streams
+		}
 		var m0, m1 runtime.MemStats
-		stuckBefore := inHandlers() // handlers already stuck because of an earlier message are not charged to this one
 		runtime.ReadMemStats(&m0)
 		ctx, cancel := context.WithTimeout(context.Background(), 2*time.Second)
 		if err := pair.a.SendRaw(ctx, pair.b.ID(), resp, d); err != nil {
@@ -108,23 +111,26 @@ func runP2P(outPath string, scale int, inPath string) {
 		}
 		cancel()
 		time.Sleep(time.Millisecond)
+		// a full request / response round trip with the receiver (or its refusal: a malformed message makes it ban the sender's
+		// IP address): by then the handler of the message under test has been started
+		banned := !pair.ping()
 		// the receiver's stream goroutine must be gone within the deadline: goroutines still inside onRequest / onResponse (or
-		// anything they call) are counted in a dump of all goroutine stacks
+		// anything they call) are counted in a dump of all goroutine stacks; those not yet charged to a case are charged here
 		t0 := time.Now()
 		stuck := inHandlers()
-		for stuck > stuckBefore && time.Since(t0) < settleDeadline {
+		for stuck > charged && time.Since(t0) < settleDeadline {
 			time.Sleep(5 * time.Millisecond)
 			stuck = inHandlers()
 		}
-		g0, g1 := stuckBefore, stuck
 		runtime.ReadMemStats(&m1)
-		rec.GLeak, rec.SettleMs, rec.Alloc = g1-g0, int(time.Since(t0)/time.Millisecond), m1.TotalAlloc-m0.TotalAlloc
+		rec.GLeak, rec.SettleMs, rec.Alloc = stuck-charged, int(time.Since(t0)/time.Millisecond), m1.TotalAlloc-m0.TotalAlloc
 		if rec.GLeak < 0 {
 			rec.GLeak = 0
 		}
-		// the process survived the message (a panic in the receiver's stream goroutine would have killed it); a malformed
-		// message makes the receiver ban the sender's IP address, which is shared by every loopback node: fresh pair then
-		banned := !pair.ping()
+		if stuck > charged {
+			charged = stuck
+		}
+		lastI, lastResp, lastD, lastGen = i, resp, rec.D, gen
 		rec.Phase, rec.Alive = "done", true
 		if banned {
 			rec.Send += "banned"
@@ -150,7 +156,10 @@ func runP2P(outPath string, scale int, inPath string) {
 			}
 		}
 		time.Sleep(300 * time.Millisecond)
-		emit(pRec{K: "p", I: -1, Phase: "end", Alive: pair.ping(), G0: gStart, GEnd: gStart})
+		if sb := inHandlers(); sb > charged {
+			emit(pRec{K: "p", I: lastI, Phase: "late", Resp: lastResp, D: lastD, Gen: lastGen, GLeak: sb - charged, SettleMs: -1, Alive: true})
+		}
+		emit(pRec{K: "p", I: -1, Phase: "end", Alive: pair.ping()})
 		return
 	}
 	fam := func(resp bool, valid []byte, nmut int) {
@@ -174,10 +183,12 @@ func runP2P(outPath string, scale int, inPath string) {
 	}
 	time.Sleep(300 * time.Millisecond)
 	alive := pair.ping()
+	if sb := inHandlers(); sb > charged { // nothing may still sit in a handler at the end
+		emit(pRec{K: "p", I: lastI, Phase: "late", Resp: lastResp, D: lastD, Gen: lastGen, GLeak: sb - charged, SettleMs: -1, Alive: true})
+	}
 	pair.close()
 	pair = nil
-	gEnd := settle(gStart, 3*time.Second)
-	emit(pRec{K: "p", I: -1, Phase: "end", Alive: alive, Gen: hexInt(dead), G0: gStart, GEnd: gEnd})
+	emit(pRec{K: "p", I: -1, Phase: "end", Alive: alive, Gen: hexInt(dead)})
 }
 
 // settle waits until the goroutine count is at most target or the time is up, and returns the count.
